@@ -65,6 +65,8 @@ def findings():
     if not n:
         out.append("- none")
     for f in sorted(glob.glob(os.path.join(V, "notes", "*.md"))):
+        if os.path.basename(f).startswith("9_"):
+            continue
         out.append("\n" + open(f).read().strip() + "\n")
     out.append("\n## 9. Seeded changes (independent sub-agents, property text + scratch worktree only) and what catches them\n")
     out.append("| seeded change | what it does | needs | caught by (refuted obligations) | exit |\n|---|---|---|---|---|")
@@ -79,6 +81,8 @@ def findings():
         out.append("| %s | %s | %s | %s | %s |" % (os.path.basename(d), cell(m.get("what_changes")), cell(m.get("needs_to_manifest")),
                                                    cell(", ".join(det.get("refuted_obligations", [])) or det.get("note", "")),
                                                    str(det.get("exit", "?")) + (" (was %s before strengthening)" % m["earlier_detection"]["exit"] if m.get("earlier_detection") else "")))
+    for f in sorted(glob.glob(os.path.join(V, "notes", "9_*.md"))):
+        out.append("\n" + open(f).read().strip() + "\n")
     return "\n".join(out)
 
 def main():
